@@ -1,8 +1,8 @@
 (* Props_C07.v — the property theorems for C07 and nothing else.
    C07: "A scan cursor is a stable, memory-safe snapshot while the store moves under it". *)
 From Coq Require Import NArith ZArith List Bool Arith.
-From Blue Require Import Cursor.Iface Cursor.Ref Cursor.Bounds Cursor.Pruning Cursor.Spec Cursor.Proofs_Ref
-  Snap.Model Snap.ProofsSafe Snap.ProofsLeaf Snap.ProofsGrow Snap.ProofsScan Snap.ProofsStable.
+From Blue Require Import Cursor.Iface Cursor.Ref Cursor.Bounds Cursor.Pruning Cursor.Spec Cursor.Proofs_Ref Cursor.Proofs_Spec
+  Snap.Model Snap.ProofsSafe Snap.ProofsLeaf Snap.ProofsGrow Snap.ProofsScan Snap.ProofsSpec Snap.ProofsStable.
 Import ListNotations.
 Local Open Scope N_scope.
 
@@ -42,15 +42,22 @@ Theorem C07_fresh_scan_is_reference_cursor : forall fuel lo hi t (mems : list (N
   refines (xcur fuel scan_depth) (scan_new fuel lo hi t mems v) (scan_list lo hi t (map snd mems) v) (-1).
 Proof. exact scan_new_refines. Qed.
 
-(* the hypotheses about the store at scan-open are decidable; the check evaluates this boolean (and
-   compares the composed specification with the contents-based `scan_spec`) at every scan it opens
-   on the real store *)
+(* the composed specification is the contents-based one: per key the newest version not newer than
+   t unless it is a tombstone, within the bounds, over EVERY entry of the memtables and the version *)
+Theorem C07_scan_list_is_the_contents : forall lo hi t ls v,
+  scan_wf lo hi ls v -> distinct (all_entries ls v) ->
+  scan_list lo hi t ls v = bounds_spec lo hi (prune_spec t (fold_right insert_sorted [] (all_entries ls v))).
+Proof. exact scan_list_is_contents. Qed.
+
+(* the hypotheses about the store at scan-open are decidable; the check evaluates this boolean at
+   every scan it opens on the real store *)
 Theorem C07_open_hypotheses_checkable : forall c s lo hi, open_wfb c s lo hi = true ->
   scan_wf lo hi (map (look_of s) (open_mems s)) (cur_levels s) /\
+  distinct (all_entries (map (look_of s) (open_mems s)) (cur_levels s)) /\
   (total_size (map (look_of s) (open_mems s)) (cur_levels s) + 2 <= cf_fuel c)%nat.
 Proof.
-  intros c s lo hi H. unfold open_wfb in H. apply andb_prop in H. destruct H as [H1 H2].
-  split; [now apply scan_wfb_ok|now apply Nat.leb_le].
+  intros c s lo hi H. unfold open_wfb in H. apply andb_prop in H. destruct H as [H H3]. apply andb_prop in H. destruct H as [H1 H2].
+  split; [now apply scan_wfb_ok|]. split; [now apply distinct_of_bool|now apply Nat.leb_le].
 Qed.
 
 (* In the machine: a cursor opened after ANY history es1 and then held across ANY further events
@@ -58,23 +65,25 @@ Qed.
    new versions (retiring the ssts it reads), removals from trash/, cache evictions, other cursors
    opened, used and dropped, its own calls in any order and direction, and writes once a rollover
    has swapped out the memtable it was opened on - returns, call by call, exactly what the
-   reference cursor over the contents at scan-open time returns.  (`quietb` excludes only writes
-   into the memtable the cursor was opened on while it is still the active one: see
-   C07_pruning_screens_late_writes and the note on what is missing for that case.)
+   reference cursor over `scan_spec s1 lo hi` returns: the contents the store had when the scan was
+   opened (Model.scan_spec: bounds_spec lo hi (prune_spec visible_seq_no (all entries, sorted))).
+   (`quietb` excludes only writes into the memtable the cursor was opened on while it is still the
+   active one: see C07_pruning_screens_late_writes and the note on what is missing for that case.)
    The hypotheses `no_err` exclude ill-formed schedules (BadEvent); UAF / ENOENT cannot occur by
-   C07_no_freed_memory_no_missing_file. *)
+   C07_no_freed_memory_no_missing_file; `open_wfb` is the checker of the theorem above. *)
 Theorem C07_cursor_keeps_scan_open_contents : forall c seq es1 cid lo hi es2,
   cf_iter_owns c = true -> cf_holds_ver c = true ->
   let s1 := fst (mrun c (minit seq) es1) in
   find_scan s1 cid = None ->
-  scan_wf lo hi (map (look_of s1) (open_mems s1)) (cur_levels s1) ->
-  (total_size (map (look_of s1) (open_mems s1)) (cur_levels s1) + 2 <= cf_fuel c)%nat ->
+  open_wfb c s1 lo hi = true ->
   quietb cid true es2 = true ->
   Forall no_err (snd (mrun c s1 (EOpen cid lo hi :: es2))) ->
   cursor_trace cid (EOpen cid lo hi :: es2) (snd (mrun c s1 (EOpen cid lo hi :: es2))) =
-  ref_trace (scan_list lo hi (ms_vis s1) (map (look_of s1) (open_mems s1)) (cur_levels s1)) (-1) cid es2.
+  ref_trace (scan_spec s1 lo hi) (-1) cid es2.
 Proof.
-  intros c seq es1 cid lo hi es2 Hio Hhv s1 Hfs Hwf Hfu Hq Hne.
+  intros c seq es1 cid lo hi es2 Hio Hhv s1 Hfs Hwfb Hq Hne.
+  destruct (C07_open_hypotheses_checkable c s1 lo hi Hwfb) as [Hwf [Hd Hfu]].
+  rewrite <- (open_list_is_scan_spec s1 lo hi Hwf Hd). unfold open_list.
   assert (Inv s1) as HI by (exact (proj2 (run_safe c Hio Hhv es1 (minit seq) (init_inv seq)))).
   cbn [mrun] in *. destruct (mstep c s1 (EOpen cid lo hi)) as [s' o] eqn:E.
   assert (no_err o) as Ho.
